@@ -9,7 +9,7 @@ from ..common import HarnessTimeout, exc_name, generic_replay
 RULE = ('message lists (<= 6 messages of all types, sysex lengths 0..20) x EVERY cut offset 0..total of their byte stream x random '
         'segmentations of the bytes before the cut, sent over socket.socketpair() with the receiving SocketPort polled between '
         'segments, then the peer closes (close / shutdown); iteration of the receiving port under a sleep counter; close '
-        'visibility (peer sees EOF); bursts of 1..65536 bytes (every power of two around the usual buffer sizes) from a peer that stays connected, with the non-blocking calls under a 3 s watchdog; a loopback PortServer with two clients, one of them bursting and then idle; format/parse of all ports 1..65535 x hosts. '
+        'visibility (peer sees EOF); bursts of 1..65536 bytes (every power of two around the usual buffer sizes) from a peer that stays connected, with the non-blocking calls under a 3 s watchdog; a loopback PortServer with two clients, one of them bursting and then idle, or sending several messages and disconnecting before the server polls; format/parse of all ports 1..65535 x hosts. '
         'Distinct by (messages, cut, segmentation); non-trivial = cut strictly inside the stream')
 
 
@@ -153,7 +153,7 @@ def open_burst(sizes):
                 pass
 
 
-def server_case(rng, burst=None):
+def server_case(rng, burst=None, leave=0):
     """Two clients send to a loopback PortServer; poll() must hand out both without blocking."""
     import mido
     from mido import sockets
@@ -177,6 +177,14 @@ def server_case(rng, burst=None):
             clients[0]._wfile.write(b''.join(bytes(m.bytes()) for m in ms))
             clients[0]._wfile.flush()
             sent += [msgs.canon_msg(m) for m in ms]
+            time.sleep(0.05)
+        if leave:
+            # a client sends several complete messages and disconnects before the server has looked at them
+            for i in range(leave):
+                m = portsim.msg_of(3000 + i)
+                clients[1].send(m)
+                sent.append(msgs.canon_msg(m))
+            clients[1].close()
             time.sleep(0.05)
         nsent = len(sent)
 
@@ -311,6 +319,12 @@ def run(ck):
         f = open_burst(sizes)
         if f:
             ck.oracle_fail({'burst': sizes}, f)
+    for leave in ([2, 6] if ck.tier == 'quick' else [1, 2, 3, 6, 20, 100]):
+        ck.evaluations += 1
+        ck.count('server_client_leaves')
+        f = server_case(rng, None, leave)
+        if f:
+            ck.oracle_fail({'server': True, 'leave': leave}, f)
     for burst in ([1024, 4096] if ck.tier == 'quick' else [1, 1023, 1024, 1025, 2048, 4096, 8192]):
         ck.evaluations += 1
         ck.count('server_burst')
@@ -332,7 +346,7 @@ def oracle(case):
         return open_burst(case['burst'])
     if 'server' in case:
         import random
-        return server_case(random.Random(0), case.get('burst_bytes'))
+        return server_case(random.Random(0), case.get('burst_bytes'), case.get('leave', 0))
     if 'host' in case:
         from mido.sockets import format_address, parse_address
         try:
